@@ -147,6 +147,9 @@ def build_scene(case, seed):
     else:
         bkg = np.zeros(SHAPE)
     rms = np.full(SHAPE, SIGMA)
+    if case["rms"] == "files":
+        # a smoothly varying (+-25 %) noise map, exactly representable
+        rms = np.round(SIGMA * (1.0 + 0.25 * np.sin(ii / 23.0 + 0.7) * np.cos(jj / 31.0)) * 65536) / 65536
     return hdr, img, bkg, rms
 
 
